@@ -232,6 +232,41 @@ class View:
         return out
 
 
+class ExtView:
+    """A window [start, start+n) of a view in window-relative sector coordinates (one extent / storage of a
+    larger disk). Pattern identity stays absolute: `shift` is added when content is generated."""
+
+    def __init__(self, view: View, start: int, n: int):
+        self.view = view
+        self.shift = start + getattr(view, "shift", 0)
+        self._start = start
+        self.n = n
+
+    def segs(self, s: int, e: int):
+        return [(a - self._start, b - self._start, v) for a, b, v in self.view.segs(s + self._start, e + self._start)]
+
+    def sectors(self, s: int, e: int) -> bytes:
+        return self.view.sectors(s + self._start, e + self._start)
+
+
+def slice_layer(layer: Layer, start: int, n: int, lid: int | None = None) -> Layer:
+    """The part of a layer covering sectors [start, start+n) as a layer of its own (start must be unit aligned)."""
+    assert start % layer.unit == 0
+    out = Layer(layer.id if lid is None else lid, n, layer.unit)
+    for a, b, v in layer.own.segs(start, start + n):
+        if v is not None:
+            out.own.set(a - start, b - start, v)
+    u0 = start // layer.unit
+    nu = out.nunits
+    for u in layer.touch:
+        if u0 <= u < u0 + nu:
+            out._touch(u - u0)
+    for u, fl in layer.flags.items():
+        if u0 <= u < u0 + nu:
+            out.flags[u - u0] = fl
+    return out
+
+
 def first_mismatch(got: bytes, want: bytes) -> int:
     n = min(len(got), len(want))
     if got[:n] == want[:n]:
